@@ -26,3 +26,9 @@ def run(ctx):
     R.check_fraction(ctx, "C07.FRAC")
     R.check_tzstr(ctx, None, None, "C07.UTC", "C07.UTC")
     R.check_week(ctx, "C07.WEEK")
+
+    # ---------------------------------------------------------------- C07.ARGS
+    from ..rules_common import check_call_arguments
+    check_call_arguments(ctx, "C07.ARGS", "C07")
+
+
